@@ -470,7 +470,7 @@ func runC01Rest(c *Ctx, isTA *ssa.Function) {
 				{defArm, "default", ".Releasing", "+", false, "a bound/running pod is not releasing capacity"},
 			}
 			for _, e := range exps {
-				got := hasEffect(ea, e.arm, e.field, e.op)
+				got := hasEffectUnder(ea, e.arm, e.field, e.op)
 				construct := fmt.Sprintf("%s arm[%s] %s %s expected=%v", funcKey(add), e.name, e.field, e.op, e.want)
 				c.Check(got == e.want, "O4", "PAIR", construct, add.Pos(), e.why, fmt.Sprintf("arm table of addTaskResources deviates from the property: %s (found=%v); effects: %s", e.why, got, trunc(effectsSummary(ea), 500)))
 			}
